@@ -32,6 +32,20 @@ def hostile_scope2():
     return "\n".join(out)
 
 
+STD_METHODS = ["add", "sub", "mul", "div", "rem", "shl", "shr", "bitand", "bitor", "bitxor", "not", "neg", "add_assign", "sub_assign", "mul_assign", "div_assign", "rem_assign",
+               "shl_assign", "shr_assign", "bitand_assign", "bitor_assign", "bitxor_assign", "sum", "product", "fold", "fmt", "from", "into", "try_from", "try_into", "as_ref", "as_mut",
+               "deref", "deref_mut", "index", "index_mut", "into_iter", "from_str", "source", "provide"]
+# (methods of the TRAITS the derives implement by delegating to the fields' impls - the external items the property is about; inherent
+# helpers of std types such as `str::to_lowercase` / `String::as_str`, which FromStr's expansion calls on its own `&str`, are not in it)
+
+
+def hostile_scope3():
+    """A local trait, implemented for every type, that declares by-value methods named like the methods of the std traits the
+    derives implement by delegation.  `Trait::method(x)` does not see it; `x.method()` on anything but an inherent method becomes
+    ambiguous (E0034) or resolves to it."""
+    return "#[allow(dead_code)] pub trait Colliding: ::core::marker::Sized { %s }\nimpl<T> Colliding for T {}" % " ".join("fn %s(self) {}" % m for m in STD_METHODS)
+
+
 def run(chk, tier):
     thorough = tier == "thorough"
     tab = c01.table()
@@ -53,10 +67,11 @@ def run(chk, tier):
                 uses = "#[allow(unused_imports)] use ::derive_more; #[allow(unused_imports)] use super::super::{H, Tr, Tr2}; #[allow(unused_imports)] use ::core::marker::PhantomData;"
                 uses2 = "#[allow(unused_imports)] use super::super::{H, Tr, Tr2}; #[allow(unused_imports)] use ::core::marker::PhantomData;"
                 for scope, body in (("no_prelude", "#[no_implicit_prelude]\npub mod m {\n    %s\n    %s\n}" % (uses, item)),
-                                    ("shadowed", "pub mod m {\n    %s\n    %s\n    %s\n}" % (uses2, hostile_scope2(), item))):
+                                    ("shadowed", "pub mod m {\n    %s\n    %s\n    %s\n}" % (uses2, hostile_scope2(), item)),
+                                    ("colliding_methods", "pub mod m {\n    %s\n    %s\n    %s\n}" % (uses2, hostile_scope3(), item))):
                     cases.append(Case("c%d" % len(cases), "#[allow(unused_imports)] use super::*;\n" + body, has_run=False,
                                       meta=dict(derive=derive, scope=scope, gen=g["name"], src=item)))
-    chk.part("space", programs=len(cases), derives=len(tab), scopes=["#[no_implicit_prelude] + `use ::derive_more;`", "every prelude type/variant/trait name and std macro shadowed by a local item"],
+    chk.part("space", programs=len(cases), derives=len(tab), scopes=["#[no_implicit_prelude] + `use ::derive_more;`", "every prelude type/variant/trait name and std macro shadowed by a local item", "a local blanket trait with by-value methods named like %d std trait methods" % len(STD_METHODS)],
              shadowed_names=len(SHADOW_TYPES) + len(SHADOW_TRAITS) + len(SHADOW_MACROS) + 3, generics=[g["name"] for g in gens])
     eng = CompileEngine("C15", header=c01.HEADER, prelude=c01.PRELUDE, mode="check", per_bin=max(20, len(cases) // 16 + 1))
     results = eng.run_cases(cases)
